@@ -1006,6 +1006,24 @@ func (r *Runtime) checkObjectCoercible(v Value) {
 	}
 }
 
+// floatToInt64Mod converts a finite float to the int64 that has the same value modulo 2^64 (the integer
+// part for everything that fits). Truncating the result to n bits gives ToIntN / ToUintN for every finite double,
+// whereas the plain Go conversion is undefined outside the int64 range.
+func floatToInt64Mod(f float64) int64 {
+	const two63 = 9223372036854775808.0
+	if f >= -two63 && f < two63 {
+		return int64(f)
+	}
+	f = math.Mod(math.Trunc(f), 2*two63) // exact
+	switch {
+	case f >= two63:
+		return int64(f - 2*two63)
+	case f < -two63:
+		return int64(f + 2*two63)
+	}
+	return int64(f)
+}
+
 func toInt8(v Value) int8 {
 	v = v.ToNumber()
 	if i, ok := v.(valueInt); ok {
@@ -1015,7 +1033,7 @@ func toInt8(v Value) int8 {
 	if f, ok := v.(valueFloat); ok {
 		f := float64(f)
 		if !math.IsNaN(f) && !math.IsInf(f, 0) {
-			return int8(int64(f))
+			return int8(floatToInt64Mod(f))
 		}
 	}
 	return 0
@@ -1030,7 +1048,7 @@ func toUint8(v Value) uint8 {
 	if f, ok := v.(valueFloat); ok {
 		f := float64(f)
 		if !math.IsNaN(f) && !math.IsInf(f, 0) {
-			return uint8(int64(f))
+			return uint8(floatToInt64Mod(f))
 		}
 	}
 	return 0
@@ -1084,7 +1102,7 @@ func toInt16(v Value) int16 {
 	if f, ok := v.(valueFloat); ok {
 		f := float64(f)
 		if !math.IsNaN(f) && !math.IsInf(f, 0) {
-			return int16(int64(f))
+			return int16(floatToInt64Mod(f))
 		}
 	}
 	return 0
@@ -1099,7 +1117,7 @@ func toUint16(v Value) uint16 {
 	if f, ok := v.(valueFloat); ok {
 		f := float64(f)
 		if !math.IsNaN(f) && !math.IsInf(f, 0) {
-			return uint16(int64(f))
+			return uint16(floatToInt64Mod(f))
 		}
 	}
 	return 0
@@ -1114,7 +1132,7 @@ func toInt32(v Value) int32 {
 	if f, ok := v.(valueFloat); ok {
 		f := float64(f)
 		if !math.IsNaN(f) && !math.IsInf(f, 0) {
-			return int32(int64(f))
+			return int32(floatToInt64Mod(f))
 		}
 	}
 	return 0
@@ -1129,7 +1147,7 @@ func toUint32(v Value) uint32 {
 	if f, ok := v.(valueFloat); ok {
 		f := float64(f)
 		if !math.IsNaN(f) && !math.IsInf(f, 0) {
-			return uint32(int64(f))
+			return uint32(floatToInt64Mod(f))
 		}
 	}
 	return 0
@@ -1144,7 +1162,7 @@ func toInt64(v Value) int64 {
 	if f, ok := v.(valueFloat); ok {
 		f := float64(f)
 		if !math.IsNaN(f) && !math.IsInf(f, 0) {
-			return int64(f)
+			return floatToInt64Mod(f)
 		}
 	}
 	return 0
@@ -1159,7 +1177,7 @@ func toUint64(v Value) uint64 {
 	if f, ok := v.(valueFloat); ok {
 		f := float64(f)
 		if !math.IsNaN(f) && !math.IsInf(f, 0) {
-			return uint64(int64(f))
+			return uint64(floatToInt64Mod(f))
 		}
 	}
 	return 0
@@ -1174,7 +1192,7 @@ func toInt(v Value) int {
 	if f, ok := v.(valueFloat); ok {
 		f := float64(f)
 		if !math.IsNaN(f) && !math.IsInf(f, 0) {
-			return int(f)
+			return int(floatToInt64Mod(f))
 		}
 	}
 	return 0
@@ -1189,7 +1207,7 @@ func toUint(v Value) uint {
 	if f, ok := v.(valueFloat); ok {
 		f := float64(f)
 		if !math.IsNaN(f) && !math.IsInf(f, 0) {
-			return uint(int64(f))
+			return uint(floatToInt64Mod(f))
 		}
 	}
 	return 0
